@@ -193,7 +193,11 @@ pub fn str_slice(
             if let Some(ch) = chars.get(idx) {
                 out.push(*ch);
             }
-            i += step;
+            // A step near i64::MAX must end the walk, not wrap around.
+            match i.checked_add(step) {
+                Some(next) => i = next,
+                None => break,
+            }
         }
     } else {
         while i > end_idx {
@@ -201,7 +205,11 @@ pub fn str_slice(
             if let Some(ch) = chars.get(idx) {
                 out.push(*ch);
             }
-            i += step; // negative
+            // negative step; a step near i64::MIN must end the walk, not wrap around.
+            match i.checked_add(step) {
+                Some(next) => i = next,
+                None => break,
+            }
         }
     }
 
